@@ -12,7 +12,7 @@ use simplicity::jet::{Core, Elements};
 use simplicity::{types, BitIter, CommitNode, ConstructNode, RedeemNode};
 
 pub const SPEC: Spec = Spec {
-    rule: "mode raw: arbitrary bytes split into program and witness; mode mutate: the encoding of a generated well-typed program (Core or Elements) with 1-4 mutations (bit flip, byte overwrite, truncate, extend, splice with a second program, witness edits); mode negative: one canonicity rule violated at a time, assembled with an independent bit-level writer from the wire form of a generated program (unused node inserted, two independent adjacent nodes swapped, a witness-free shared sub-expression duplicated, a hidden node repeated, trailing byte on program / witness, non-zero padding bit in program / witness, witness one byte short) - each must be rejected while its canonical twin must be accepted. All inputs go to RedeemNode::decode (family of the program; raw inputs: both families), CommitNode::decode and ConstructNode::decode. Oracle: no panic (overflow checks on), <= 2^28 DAG steps, peak allocation <= 96 MiB + 4096*len; Ok(p) => p.to_vec_with_witness() == input (commit: to_vec_without_witness() == input unless the reference reader sees a two-child disconnect). Non-trivial: the input decodes with >= 4 nodes, or is a directed negative derived from a program with >= 4 nodes. Distinct by input bytes.",
+    rule: "mode raw: arbitrary bytes split into program and witness; mode mutate: the encoding of a generated well-typed program (Core or Elements) with 1-4 mutations (bit flip, byte overwrite, truncate, extend, splice with a second program, witness edits); mode negative: one canonicity rule violated at a time, assembled with an independent bit-level writer from the wire form of a generated program (unused node inserted, two independent adjacent nodes swapped, a witness-free shared sub-expression duplicated, a hidden node repeated, trailing byte on program / witness, non-zero padding bit in program / witness, witness one byte short) - each must be rejected while its canonical twin must be accepted; mode inner-type duplicate: a hand-assembled 17-node DAG with two unshared `comp (inj a) unit` nodes of one identity hash whose inner types differ (free vs forced to a word type through a shared iden), which the redeem decoder must reject while accepting the twin with the two merged. All inputs go to RedeemNode::decode (family of the program; raw inputs: both families), CommitNode::decode and ConstructNode::decode. Oracle: no panic (overflow checks on), <= 2^28 DAG steps, peak allocation <= 96 MiB + 4096*len; Ok(p) => p.to_vec_with_witness() == input (commit: to_vec_without_witness() == input unless the reference reader sees a two-child disconnect). Non-trivial: the input decodes with >= 4 nodes, or is a directed negative derived from a program with >= 4 nodes. Distinct by input bytes.",
     design_ref: "§6 C02",
     max_len: 1500,
     quick_cases: 40_000,
@@ -308,6 +308,87 @@ fn mutate_bytes(src: &mut Src, bytes: &mut Vec<u8>, other: &[u8]) -> &'static st
     }
 }
 
+/// Two unshared nodes with one identity hash whose *inner* types differ, hand-assembled (the
+/// encoder shares nodes by identity hash and cannot emit this):
+///
+/// ```text
+///   d  = comp (inj a) unit          -- inner type 1 + B (resp. B + 1), B free, so B = 1
+///   d' = comp (inj' a) unit         -- inj' is a second node object of the same combinator that
+///                                      is also used in `comp inj' iden`, where the same `iden`
+///                                      follows `inj~ (word T)`: B = T there
+///   root = comp (pair (pair d d') (pair m1 m2)) unit
+/// ```
+///
+/// d and d' have the same identity Merkle root and the same arrow 1 -> 1, hence the same
+/// identity hash, but different annotated roots.  A decoder whose post-decode sharing check is
+/// keyed on anything finer than the identity hash accepts the pair.  Returns the negative, its
+/// canonical twin (d' replaced by a second reference to d) and a description.
+pub fn inner_type_duplicate(src: &mut Src, family: Family) -> (Vec<u8>, Vec<u8>, String) {
+    let left = src.bool();
+    let k = src.below(7); // forced type 2^(2^k): 1 .. 64 bits
+    let a_iden = src.bool();
+    let swap_d = src.bool();
+    let m_first = src.bool();
+    let bits: Vec<bool> = (0..(1usize << k)).map(|_| src.bool()).collect();
+    let inj = |left: bool, c: usize| if left { WNode::InjL(c) } else { WNode::InjR(c) };
+    let mut g: Vec<WNode> = vec![];
+    let mut push = |n: WNode| {
+        g.push(n);
+        g.len() - 1
+    };
+    let a = push(if a_iden { WNode::Iden } else { WNode::Unit }); // 1 -> 1 either way
+    let b = push(inj(left, a));
+    let c = push(WNode::Unit);
+    let d = push(WNode::Comp(b, c));
+    let b2 = push(inj(left, a));
+    let w = push(WNode::Word(k, bits));
+    let r = push(inj(!left, w));
+    let i = push(WNode::Iden);
+    let m1 = push(WNode::Comp(r, i));
+    let m2 = push(WNode::Comp(b2, i));
+    let c2 = push(WNode::Unit);
+    let d2 = push(WNode::Comp(b2, c2));
+    let pd = if swap_d { push(WNode::Pair(d2, d)) } else { push(WNode::Pair(d, d2)) };
+    let pm = push(WNode::Pair(m1, m2));
+    let p = if m_first { push(WNode::Pair(pm, pd)) } else { push(WNode::Pair(pd, pm)) };
+    let u = push(WNode::Unit);
+    let root = push(WNode::Comp(p, u));
+    let neg = wire::canonicalize(&g, root);
+    let mut t = g.clone();
+    t[pd] = WNode::Pair(d, d);
+    let twin = wire::canonicalize(&t, root);
+    let desc = format!(
+        "comp ({} a) unit twice, once with the free inner type and once with it forced to 2^{} through a shared iden (a = {}, d' {} d, forcing pair {})",
+        if left { "injl" } else { "injr" },
+        1usize << k,
+        if a_iden { "iden" } else { "unit" },
+        if swap_d { "before" } else { "after" },
+        if m_first { "first" } else { "last" }
+    );
+    with_codes(family, |codes| (pack(&wire::write_program(&neg, codes)), pack(&wire::write_program(&twin, codes)), desc))
+}
+
+fn inner_type_duplicate_case(cx: &mut Case) -> CaseResult {
+    cx.label("mode: equal identity hash, different inner types");
+    let family = if cx.src.bool() { Family::Core } else { Family::Elements };
+    let mut s = cx.src.clone();
+    let (neg, twin, desc) = inner_type_duplicate(&mut s, family);
+    cx.src = s;
+    cx.fp.write(&neg);
+    cx.nontrivial = true;
+    cx.set_sample(|| json!({"mode": "negative", "rule": "unshared nodes of equal identity hash with different inner types", "program": hex(&neg), "twin": hex(&twin), "shape": desc}));
+    let t = decode_all(family, &twin, &[])?;
+    if !t.redeem_ok {
+        return Err(harness_error(format!("canonical twin of an inner-type duplicate is not accepted: {} ({})", hex(&twin), desc)));
+    }
+    let r = decode_all(family, &neg, &[])?;
+    if r.redeem_ok {
+        return Err(format!("RedeemNode::decode accepts two unshared nodes with the same identity hash (their inner types differ): {} ({})", hex(&neg), desc));
+    }
+    cx.label_if(r.commit_ok, "inner-type duplicate: commit decoder accepts (not asserted)");
+    Ok(())
+}
+
 /// Is the node's arrow a complete type determined by the sub-expression alone?
 fn closed_arrow(nodes: &[WNode], n: usize) -> bool {
     match &nodes[n] {
@@ -496,10 +577,11 @@ fn directed_negative(src: &mut Src, v: &Valid, nodes: &[WNode], codes: &JetCodes
 }
 
 pub fn case(cx: &mut Case) -> CaseResult {
-    let mode = cx.src.weighted(&[30, 40, 40, 3, 3]);
+    let mode = cx.src.weighted(&[30, 40, 40, 3, 3, 3]);
     match mode {
         3 => zero_width_witness(cx),
         4 => jet_code_hole(cx),
+        5 => inner_type_duplicate_case(cx),
         0 => {
             cx.label("mode: raw bytes");
             let split = cx.src.u8() as usize;
